@@ -108,6 +108,7 @@ Theorem C24_repair_loop_head_only_partial : forall fuel t last offsets csize f,
   exists t',
     repair_loop fuel t last offsets csize = Ok (t', last, offsets, eoff last) /\
     t_index t' = t_index t /\ t_mcur t' = t_mcur t /\ t_msyn t' = t_msyn t /\ t_open t' = t_open t /\
+    t_offset t' = t_offset t /\ t_hidden t' = t_hidden t /\ t_tail t' = t_tail t /\
     (csize = eoff last -> t' = t) /\
     (eoff last < csize -> t_data t' = dset (efile last) (f_trunc f (eoff last)) (t_data t)).
 Proof. exact repair_loop_head_only. Qed.
